@@ -2,11 +2,14 @@ import Reduino.Lang.Types
 import Reduino.Lang.TypesTree
 import Reduino.Lemmas.Field
 import Reduino.Lemmas.C02
+import Reduino.GenOb.Types
 import Mathlib.Data.Rat.Floor
 /-
   C02 — type inference is sound: no value is narrowed or re-typed on the device.
 
-  Model: Lang/Types.lean.  Float carrier: any ordered field `K` with floor (exact arithmetic); Python bool/int/float/str values.
+  Model: Lang/Types.lean.  Float carrier: any ordered field `K` with floor (exact arithmetic); Python bool/int/float/str values;
+  expressions include the builtin calls `abs`, `min`, `max`, `int()`, `float()`, `bool()` — typed by the parser's table
+  `_BUILTIN_CALL_RETURN_TYPES` (regenerated: GenOb/Types.lean), evaluated in C++ as the Arduino macros / `static_cast`s the emitter writes.
   The declared C++ types come from ONE pass over the assignments in source order (`declare`), independent of execution;
   an execution is any sequence of the program's assignments.
   Proved for all programs whose names only ever receive one inferred type and whose expressions are `Tame`
@@ -174,6 +177,47 @@ theorem and_value_counterexample :
   · simp [p, declare, declStep, infer, V.ty, cRun, cStep, evalC, conv, TEnv.set, get_set, lookup_cons_if,
       V.truthy]
 
+/-- K02e: `m = max(1.5, 2.25)` — the table types every `abs`/`max`/`min` call int whatever its arguments, so `m` is declared int;
+    Python holds 2.25, the macro yields the float 2.25 and the store into the int keeps 2 -/
+theorem builtin_float_result_counterexample :
+    let p : List (Stmt ℚ) := [("m", .max (.lit (.flt (3 / 2))) (.lit (.flt (9 / 4))))]
+    (declare p).decl.lookup "m" = some T.int ∧
+    (∃ py, pyRun [] p = some py ∧ py.get "m" = some (.flt (9 / 4))) ∧
+    (∃ c, cRun (declare p).decl [] p = some c ∧ c.get "m" = some (.int 2)) := by
+  intro p
+  have h : ((3 / 2 : ℚ) < 9 / 4) := by norm_num
+  have h' : ¬ ((9 / 4 : ℚ) < 3 / 2) := by norm_num
+  refine ⟨by decide, ?_, ?_⟩
+  · simp [p, pyRun, pyStep, eval, get_set, pyMax, V.num?, cmpN, N.toF, h]
+  · simp [p, declare, declStep, infer, V.ty, cRun, cStep, evalC, ctype, macroType, cMax, conv, TEnv.set, get_set,
+      V.num?, cmpN, N.toF, h', trunc_nine_quarters]
+
+/-- the same for `abs`: `h = abs(-2.5)` declares an int and stores 2 -/
+theorem abs_float_result_counterexample :
+    let p : List (Stmt ℚ) := [("h", .abs (.lit (.flt (-(5 / 2)))))]
+    (∃ py, pyRun [] p = some py ∧ py.get "h" = some (.flt (5 / 2))) ∧
+    (∃ c, cRun (declare p).decl [] p = some c ∧ c.get "h" = some (.int 2)) := by
+  intro p
+  have h : (-(5 / 2 : ℚ) < 0) := by norm_num
+  have h' : ¬ ((0 : ℚ) < -(5 / 2)) := by norm_num
+  refine ⟨?_, ?_⟩
+  · simp [p, pyRun, pyStep, eval, get_set, pyAbs, h]
+  · simp [p, declare, declStep, infer, cRun, cStep, evalC, cAbs, conv, TEnv.set, get_set, h', trunc_five_halves]
+
+/-- why `Tame` leaves out `min`/`max` of two bool-typed operands: the macro's `?:` has type bool there while the table says int
+    (so `infer_eq_ctype` cannot hold) — and yet the store into the int-declared name still holds Python's value -/
+theorem min_of_two_bools_typed_bool_by_the_compiler :
+    let p : List (Stmt ℚ) := [("p", .lit (.bool true)), ("q", .lit (.bool false)), ("m", .min (.var "p") (.var "q"))]
+    ctype (α := ℚ) (declare p).decl (.min (.var "p") (.var "q")) = some T.bool ∧
+    infer (α := ℚ) (declare p).decl (.min (.var "p") (.var "q")) = T.int ∧
+    (∃ py, pyRun [] p = some py ∧ py.get "m" = some (.bool false)) ∧
+    (∃ c, cRun (declare p).decl [] p = some c ∧ c.get "m" = some (.int 0)) := by
+  intro p
+  refine ⟨by decide, by decide, ?_, ?_⟩
+  · simp [p, pyRun, pyStep, eval, get_set, pyMin, V.num?, cmpN, b2i]
+  · simp [p, declare, declStep, infer, V.ty, cRun, cStep, evalC, ctype, macroType, cMin, conv, TEnv.set, get_set,
+      lookup_cons_if, V.num?, cmpN, b2i, V.truthy]
+
 /-- the property as stated (no side condition) does not hold of the transpiler -/
 theorem C02_statement_false :
     ¬ (∀ (p path : List (Stmt ℚ)) (py : Store ℚ), (∀ st ∈ path, st ∈ p) → pyRun [] path = some py →
@@ -188,20 +232,25 @@ theorem C02_statement_false :
   subst ht
   exact absurd (rep_sub hr) (by decide)
 
-/-- `TypeStable` is satisfiable by a program mixing all four types, widening an int into a float-typed name -/
+/-- `TypeStable` is satisfiable by a program mixing all four types, widening an int into a float-typed name, and calling every
+    builtin: `abs`/`min`/`max` over bool/int operands, `int()`/`float()`/`bool()` over float, int and float operands -/
 example : TypeStable ([("n", .lit (.int 3)), ("f", .lit (.flt half)), ("g", .ite (.cmp .lt (.var "n") (.lit (.int 2))) (.var "n") (.var "f")),
     ("s", .bin .add (.lit (.str "a")) (.lit (.str "b"))), ("ok", .not (.var "n")), ("f", .bin .mul (.var "f") (.var "n")),
-    ("n", .bin .add (.var "n") (.lit (.bool true)))] : List (Stmt ℚ)) := by
+    ("n", .bin .add (.var "n") (.lit (.bool true))),
+    ("m", .max (.var "n") (.abs (.bin .sub (.var "n") (.lit (.int 5))))), ("lo", .min (.var "ok") (.var "n")),
+    ("t", .toInt (.var "f")), ("u", .toFloat (.var "n")), ("z", .toBool (.var "f")), ("n", .abs (.var "ok"))] : List (Stmt ℚ)) := by
   have hd : (declare ([("n", .lit (.int 3)), ("f", .lit (.flt half)),
       ("g", .ite (.cmp .lt (.var "n") (.lit (.int 2))) (.var "n") (.var "f")),
       ("s", .bin .add (.lit (.str "a")) (.lit (.str "b"))), ("ok", .not (.var "n")),
       ("f", .bin .mul (.var "f") (.var "n")),
-      ("n", .bin .add (.var "n") (.lit (.bool true)))] : List (Stmt ℚ))).decl =
-      [("n", .int), ("f", .float), ("g", .float), ("s", .str), ("ok", .bool)] := by decide
+      ("n", .bin .add (.var "n") (.lit (.bool true))),
+      ("m", .max (.var "n") (.abs (.bin .sub (.var "n") (.lit (.int 5))))), ("lo", .min (.var "ok") (.var "n")),
+      ("t", .toInt (.var "f")), ("u", .toFloat (.var "n")), ("z", .toBool (.var "f")), ("n", .abs (.var "ok"))] : List (Stmt ℚ))).decl =
+      [("n", .int), ("f", .float), ("g", .float), ("s", .str), ("ok", .bool), ("m", .int), ("lo", .int), ("t", .int), ("u", .float), ("z", .bool)] := by decide
   intro st hst
   rw [hd]
   simp only [List.mem_cons, List.mem_nil_iff, or_false] at hst
-  rcases hst with rfl | rfl | rfl | rfl | rfl | rfl | rfl <;> decide
+  rcases hst with rfl | rfl | rfl | rfl | rfl | rfl | rfl | rfl | rfl | rfl | rfl | rfl | rfl <;> decide
 
 /-! ### block-structured programs: declarations promoted out of branches and loops (Lang/TypesTree.lean) -/
 
@@ -245,17 +294,22 @@ theorem block_retyping_is_discarded :
       = some T.float := by
   decide
 
-/-- `TypeStableT` is satisfiable by a program with a promoted branch name, a promoted loop name and a main loop -/
+/-- `TypeStableT` is satisfiable by a program with a promoted branch name, a promoted loop name and a main loop, with builtin calls
+    in branches, loop bodies and the main loop -/
 example : TypeStableT ([.assign "n" (.lit (.int 3)), .branches [[.assign "f" (.lit (.flt half))], [.assign "f" (.bin .mul (.var "n") (.lit (.flt half)))]],
     .loop [.assign "k" (.lit (.int 0)), .assign "g" (.bin .add (.var "k") (.var "n"))],
-    .mainLoop [.assign "f" (.bin .add (.var "f") (.var "g")), .assign "w" (.cmp .lt (.var "f") (.var "n"))]] : List (Node ℚ)) := by
+    .branches [[.assign "c" (.toInt (.var "f"))], [.assign "c" (.min (.var "n") (.abs (.var "g")))]],
+    .loop [.assign "h" (.toFloat (.max (.var "c") (.lit (.bool true))))],
+    .mainLoop [.assign "f" (.bin .add (.var "f") (.var "g")), .assign "w" (.cmp .lt (.var "f") (.var "n")), .assign "w" (.toBool (.var "h"))]] : List (Node ℚ)) := by
   have hd : declareT ([.assign "n" (.lit (.int 3)), .branches [[.assign "f" (.lit (.flt half))], [.assign "f" (.bin .mul (.var "n") (.lit (.flt half)))]],
     .loop [.assign "k" (.lit (.int 0)), .assign "g" (.bin .add (.var "k") (.var "n"))],
-    .mainLoop [.assign "f" (.bin .add (.var "f") (.var "g")), .assign "w" (.cmp .lt (.var "f") (.var "n"))]] : List (Node ℚ))
-      = [("w", T.bool), ("g", T.int), ("k", T.int), ("f", T.float), ("n", T.int)] := by decide
+    .branches [[.assign "c" (.toInt (.var "f"))], [.assign "c" (.min (.var "n") (.abs (.var "g")))]],
+    .loop [.assign "h" (.toFloat (.max (.var "c") (.lit (.bool true))))],
+    .mainLoop [.assign "f" (.bin .add (.var "f") (.var "g")), .assign "w" (.cmp .lt (.var "f") (.var "n")), .assign "w" (.toBool (.var "h"))]] : List (Node ℚ))
+      = [("w", T.bool), ("h", T.float), ("c", T.int), ("g", T.int), ("k", T.int), ("f", T.float), ("n", T.int)] := by decide
   intro st hst
   rw [hd]
   simp only [flattenList, flattenNode, flattenBranches, List.append_nil, List.cons_append, List.nil_append, List.mem_cons, List.mem_nil_iff, or_false] at hst
-  rcases hst with rfl | rfl | rfl | rfl | rfl | rfl | rfl <;> decide
+  rcases hst with rfl | rfl | rfl | rfl | rfl | rfl | rfl | rfl | rfl | rfl | rfl <;> decide
 
 end Reduino.Props.C02
